@@ -137,6 +137,283 @@ func symlinkInside(state, kind string) *WS {
 	return ws
 }
 
+// ---- several arguments in several places ---------------------------------------------------------------------------
+//
+// A command line with two or three directory arguments, each of which lies in repository A (work tree <ws>/pol), in
+// another repository B, or in no repository at all; the names share string prefixes (pol, pol/sub, pol-draft, pol2) or
+// do not (drafts, zeta).  Every place holds one file the command would change; what declares a project root (nothing,
+// .manifest, .regal/, .regal.yaml, project.roots) is chosen per place.  `regal fix` without --force may touch the
+// files only if ALL arguments lie in one repository (and the files touched are clean there).
+type place struct {
+	Dir  string // the directory given as the argument (relative to the workspace)
+	Repo string // work tree root around it; "-" = no repository
+}
+
+var (
+	plA     = place{"pol", "pol"}
+	plAsub  = place{"pol/sub", "pol"}
+	plN     = place{"pol-draft", "-"}
+	plB     = place{"pol2", "pol2"}
+	plNu    = place{"drafts", "-"}
+	plBu    = place{"zeta", "zeta"}
+	markers = []string{"none", "manifest", "regal", "regal-yaml", "cfg-roots", "regal-above"}
+)
+
+// argument sets; every order of each is run
+var placeSets = [][]place{
+	{plA, plN}, {plAsub, plN}, {plA, plB}, {plAsub, plB}, {plA, plNu}, {plA, plBu}, {plA, plAsub}, {plN, plB},
+	{plA, plN, plB}, {plA, plAsub, plN}, {plAsub, plNu, plB},
+}
+
+func permPlaces(xs []place) [][]place {
+	if len(xs) <= 1 {
+		return [][]place{append([]place{}, xs...)}
+	}
+	var out [][]place
+	for i := range xs {
+		rest := append(append([]place{}, xs[:i]...), xs[i+1:]...)
+		for _, p := range permPlaces(rest) {
+			out = append(out, append([]place{xs[i]}, p...))
+		}
+	}
+	return out
+}
+
+// multi: places in command line order; marks[i] / states[i] belong to places[i] (state of a place in no repository is
+// ignored); spelling: abs | rel-from-root | rel-from-first (the working directory is the first argument: ".", "../x")
+func multi(name string, places []place, marks, states []string, kind, spelling string) *WS {
+	ws := &WS{Name: name, Policy: "error", NoForce: true, Git: &GitSpec{States: map[string]string{}, IgnoreDirs: []string{"ign/"}},
+		Extra: map[string]string{}}
+	repos := map[string]bool{}
+	for i, pl := range places {
+		f := WFile{Path: fmt.Sprintf("%s/p/t%d.rego", pl.Dir, i), Pkg: "p", ID: i + 1, Dirty: kind == "content"}
+		if kind != "content" {
+			f.Pkg = "moved.p"
+		}
+		ws.Files = append(ws.Files, f)
+		if pl.Repo != "-" {
+			if !repos[pl.Repo] {
+				repos[pl.Repo] = true
+				ws.Git.RepoDirs = append(ws.Git.RepoDirs, pl.Repo)
+			}
+			ws.Git.States[f.Path] = states[i]
+		}
+		at := pl.Dir
+		switch marks[i] {
+		case "manifest":
+			ws.Manifests = append(ws.Manifests, at)
+		case "regal-above": // the declaration lies above the argument (at the work tree root) when there is an above
+			if pl.Repo != "-" {
+				at = pl.Repo
+			}
+			fallthrough
+		case "regal":
+			if !contains(ws.RegalDirs, at) {
+				ws.RegalDirs = append(ws.RegalDirs, at)
+			}
+		case "regal-yaml":
+			ws.Extra[at+"/.regal.yaml"] = "rules: {}\n"
+		case "cfg-roots":
+			ws.Extra[at+"/.regal/config.yaml"] = "project:\n  roots:\n    - q\n"
+			ws.EmptyDirs = append(ws.EmptyDirs, at+"/q")
+		}
+		ws.Args = append(ws.Args, pl.Dir)
+	}
+	ws.Files = append(ws.Files, WFile{Path: "pol/p/clean.rego", Pkg: "p", ID: 9})
+	if !repos["pol"] {
+		ws.Git.RepoDirs = append(ws.Git.RepoDirs, "pol")
+	}
+	switch spelling {
+	case "abs":
+		ws.AbsArgs = true
+	case "rel-from-first":
+		ws.Cwd = places[0].Dir
+	}
+	return ws
+}
+
+func contains(xs []string, x string) bool {
+	for _, y := range xs {
+		if x == y {
+			return true
+		}
+	}
+	return false
+}
+
+// multiScenarios: quick = every order of every argument set twice (absolute arguments and a content fix; relative
+// arguments and alternately a move), the declaration of the first place in a repository rotating through all kinds,
+// the state of the file in the other repository through all states, + the working directory inside the first
+// argument for every third; thorough = every declaration x spelling x kind, + declarations on every place
+func multiScenarios(tier string) []*WS {
+	var out []*WS
+	bstates := []string{"modified", "staged", "untracked", "clean"}
+	n := 0
+	for _, set := range placeSets {
+		for _, order := range permPlaces(set) {
+			n++
+			tag := ""
+			for _, pl := range order {
+				tag += "+" + pl.Dir
+			}
+			mk := func(mark, bstate, astate, kind, spelling string, all bool) *WS {
+				marks, states := make([]string, len(order)), make([]string, len(order))
+				seenA := false
+				for i, pl := range order {
+					marks[i], states[i] = "none", bstate
+					if pl.Repo == "pol" {
+						states[i] = astate
+						if !seenA {
+							marks[i], seenA = mark, true
+						}
+					}
+					if all {
+						marks[i] = mark
+					}
+				}
+				if !seenA && !all { // no argument in repository A: the declaration goes to the first place
+					marks[0] = mark
+				}
+				nm := fmt.Sprintf("multi/%s/%s/%s/%s/%s/%s", tag[1:], mark, bstate, astate, kind, spelling)
+				if all {
+					nm += "/all"
+				}
+				return multi(nm, order, marks, states, kind, spelling)
+			}
+			if tier != "thorough" {
+				out = append(out, mk(markers[n%len(markers)], bstates[n%len(bstates)], "clean", "content", "abs", false))
+				k2 := "content"
+				if n%2 == 0 {
+					k2 = "move"
+				}
+				out = append(out, mk(markers[(n+3)%len(markers)], bstates[(n+1)%len(bstates)], "clean", k2, "rel-from-root", false))
+				if n%3 == 0 {
+					out = append(out, mk(markers[(n/3)%len(markers)], bstates[(n+2)%len(bstates)], "clean", "content", "rel-from-first", false))
+				}
+				if n%7 == 0 { // control: the file in repository A itself has uncommitted changes
+					out = append(out, mk(markers[(n+1)%len(markers)], "clean", "modified", "content", "abs", false))
+				}
+				continue
+			}
+			for mi, mark := range markers {
+				for si, sp := range []string{"abs", "rel-from-root", "rel-from-first"} {
+					for ki, kind := range []string{"content", "move"} {
+						if kind == "move" && (mi+si+n)%2 != 0 {
+							continue
+						}
+						out = append(out, mk(mark, bstates[(n+mi+si+ki)%len(bstates)], "clean", kind, sp, false))
+					}
+				}
+				out = append(out, mk(mark, bstates[(n+mi)%len(bstates)], "clean", "content", "abs", true))
+				out = append(out, mk(mark, "clean", "modified", "content", "rel-from-root", false))
+			}
+		}
+	}
+	return out
+}
+
+// relOutside: the working directory lies inside repository A (or inside nothing) and a relative argument leads out of
+// it: cd pol && regal fix ../pol-draft (in no repository), cd pol/sub && regal fix ../../drafts ., cd drafts && regal fix ../pol
+func relOutside() []*WS {
+	var out []*WS
+	for i, c := range []struct {
+		cwd    string
+		places []place
+	}{
+		{"pol", []place{plN}}, {"pol", []place{plNu}}, {"pol/sub", []place{plNu}}, {"pol", []place{plN, plA}}, {"pol/sub", []place{plAsub, plN}},
+		{"pol", []place{plB}}, {"drafts", []place{plA}}, {"pol2", []place{plA, plAsub}}, {"pol/sub", []place{plA}}, {"pol", []place{plAsub}},
+	} {
+		for _, kind := range []string{"content", "move"} {
+			if kind == "move" && i%3 != 0 {
+				continue
+			}
+			marks, states := make([]string, len(c.places)), make([]string, len(c.places))
+			tag := ""
+			for j, pl := range c.places {
+				marks[j], states[j] = "none", "clean"
+				if pl.Repo == "pol2" {
+					states[j] = "modified"
+				}
+				tag += "+" + pl.Dir
+			}
+			ws := multi(fmt.Sprintf("rel-outside/cwd=%s/%s/%s", c.cwd, tag[1:], kind), c.places, marks, states, kind, "rel")
+			ws.Cwd = c.cwd
+			ws.EmptyDirs = append(ws.EmptyDirs, c.cwd)
+			if c.cwd == "pol2" {
+				ws.Git.RepoDirs = append(ws.Git.RepoDirs, "pol2")
+			}
+			out = append(out, ws)
+		}
+	}
+	return out
+}
+
+// submodules: the work tree <ws> holds the submodule <ws>/sub (registered with git submodule add; its .git a
+// directory, or absorbed into the superproject: a .git file); the file to change lies inside the submodule
+func submoduleScenarios(tier string) []*WS {
+	var out []*WS
+	n := 0
+	for _, mode := range []string{"file", "dir"} {
+		for _, st := range []string{"modified", "clean", "staged", "untracked"} {
+			for _, kind := range []string{"content", "move"} {
+				for ai, args := range [][]string{{""}, {"sub/pol"}, {"pol", "sub/pol"}, {"sub"}} {
+					n++
+					// quick: the superproject as the argument in every state (absorbed submodule; three states for a submodule
+					// that keeps its .git directory, which only goes through the predicate), the other argument lists by rotation
+					if tier != "thorough" && !(ai == 0 && (kind == "content" || st == "modified") && (mode == "file" || st != "untracked")) &&
+						!(mode == "file" && n%7 == 0) {
+						continue
+					}
+					ws := &WS{Name: fmt.Sprintf("submodule-%s/%s/%s/args=%v", mode, st, kind, args), Policy: "error", NoForce: true, AbsArgs: n%2 == 0,
+						RegalDirs: []string{""}, Args: args,
+						Git: &GitSpec{States: map[string]string{}, IgnoreDirs: []string{"ign/"}, RepoDirs: []string{"", "sub"}, Submodules: map[string]string{"sub": mode}}}
+					t := WFile{Path: "sub/pol/t.rego", Pkg: "sub.pol", ID: 1, Dirty: kind == "content"}
+					if kind != "content" {
+						t.Pkg = "moved.sub.pol"
+					}
+					ws.Files = []WFile{t, {Path: "pol/clean.rego", Pkg: "pol", ID: 2}}
+					ws.Git.States[t.Path] = st
+					out = append(out, ws)
+				}
+			}
+		}
+	}
+	return out
+}
+
+func genRandomMulti(r *hutil.Rng, n int) *WS {
+	pool := []place{plA, plAsub, plN, plB, plNu, plBu, plA, plN}
+	k := 2 + r.Below(2)
+	var places []place
+	seen := map[string]bool{}
+	for len(places) < k {
+		pl := hutil.Choice(r, pool)
+		if seen[pl.Dir] {
+			continue
+		}
+		seen[pl.Dir] = true
+		places = append(places, pl)
+	}
+	marks, states := make([]string, k), make([]string, k)
+	for i := range places {
+		marks[i] = hutil.Choice(r, markers)
+		if r.Below(2) == 0 {
+			marks[i] = "none"
+		}
+		states[i] = hutil.Choice(r, []string{"clean", "clean", "modified", "staged", "untracked"})
+	}
+	kind := hutil.Choice(r, []string{"content", "content", "move"})
+	ws := multi("rand-multi"+strconv.Itoa(n), places, marks, states, kind, hutil.Choice(r, []string{"abs", "rel-from-root", "rel-from-first"}))
+	if r.Below(6) == 0 {
+		ws.Cwd = hutil.Choice(r, []string{"pol", "pol/sub", "drafts"})
+		ws.EmptyDirs = append(ws.EmptyDirs, ws.Cwd)
+		ws.AbsArgs = false
+	}
+	ws.NoForce = r.Below(10) != 0
+	ws.DryRun = r.Below(12) == 0
+	return ws
+}
+
 func genRandom(r *hutil.Rng, n int) *WS {
 	ws := &WS{Name: "rand" + strconv.Itoa(n), Policy: hutil.Choice(r, []string{"error", "rename"}), NoForce: r.Below(8) != 0,
 		DryRun: r.Below(10) == 0, RegalDirs: []string{""}, Git: &GitSpec{States: map[string]string{}, IgnoreDirs: []string{"ign/"}}}
@@ -296,13 +573,21 @@ func main() {
 					cases = append(cases, symlinkInside(st, kind))
 				}
 			}
+			// several arguments in several repositories / in none; relative arguments leading out of the working
+			// directory's repository; submodules
+			cases = append(cases, multiScenarios(tier)...)
+			cases = append(cases, relOutside()...)
+			cases = append(cases, submoduleScenarios(tier)...)
 			rng := hutil.NewRng(hutil.SeedFromEnv() ^ 0xC14)
-			nr := 30
+			nr, nm := 30, 10
 			if tier == "thorough" {
-				nr = 1500
+				nr, nm = 1500, 600
 			}
 			for i := 0; i < nr; i++ {
 				cases = append(cases, genRandom(rng, i))
+			}
+			for i := 0; i < nm; i++ {
+				cases = append(cases, genRandomMulti(rng, i))
 			}
 		}
 		out := hutil.NewOut(outPath)
